@@ -384,7 +384,19 @@ def v_truth(P, a, ta, tr): return a != 0
 def v_lnot(P, a, ta, tr): return a == 0
 
 
+def t_cmp_fill(ta): return BOOL if ta.kind in ("U", "S", "BV") else None  # Bit == Null is not implemented for run-time operands
+def _all_ones(ta): return 1 if ta.kind == "Bit" else (1 << ta.w) - 1
+def v_eq_null(P, a, ta, tr): return _bits(P, a, ta) == 0 if ta.kind != "Bit" else a == 0
+def v_ne_null(P, a, ta, tr): return _bits(P, a, ta) != 0 if ta.kind != "Bit" else a != 0
+def v_eq_full(P, a, ta, tr): return _bits(P, a, ta) == _all_ones(ta) if ta.kind != "Bit" else a == 1
+def v_ne_full(P, a, ta, tr): return _bits(P, a, ta) != _all_ones(ta) if ta.kind != "Bit" else a != 1
+
+
 UNOPS = {
+    "eq_null": ("({a} == Null)", t_cmp_fill, v_eq_null),
+    "ne_null": ("({a} != Null)", t_cmp_fill, v_ne_null),
+    "eq_full": ("({a} == Full)", t_cmp_fill, v_eq_full),
+    "ne_full": ("({a} != Full)", t_cmp_fill, v_ne_full),
     "invert": ("(~{a})", t_same_vec, v_invert),
     "neg": ("(-{a})", t_neg, v_neg),
     "abs": ("abs({a})", t_abs, v_abs),
